@@ -16,7 +16,9 @@ RULE = ("dictionary sizes 0..13, 16, 40, 100, 1000, 4000, 4096, 20000, 64KB-1, 6
         "attach (loadDict / loadDictSlow prepared), struct copy of a prepared stream; HC: loadDictHC, attach_HC with every level pairing mid/hc/opt} x "
         "first block contiguous to the dictionary or elsewhere x input sizes {0,1,5,12,13,40,200,1000,4000,4090,4095,4096,4097,4100,5000,20000,64KB-1,64KB,64KB+12,70000} "
         "copying from every region of the dictionary (and from the part beyond 64 KB) x 1,2,3,6 reuses of one prepared dictionary stream x 0..3 linked follow-up blocks; "
-        "first case = corpus F12 (attach on a stream with history + contiguous block); "
+        "dictionary cut out of a larger buffer with inputs repeating its LAST bytes followed by the bytes stored after it / by what a decoder "
+        "would continue with / by random bytes, first and second use, every cross-level attach pairing {1,2}x{3,4,9,10,12} and reverse; "
+        "abandoned sessions (attach on a cleared table, nothing or an empty input compressed, reset, dictionary-less session with dictionary-like content; run on the code alone and with the model); first case = corpus F12 (attach on a stream with history + contiguous block); "
         "non-trivial = an emitted block with at least one match reaching into the dictionary / history; distinct = distinct (source, block, history length)")
 TRUSTED = ["hand-written model Model/FastStream.v (see C11), tied by exact state comparison after every operation",
            "HC dictionary paths (loadDictHC, attach_HC_dictionary, isStateCompatible, MID tables) are not modelled in Coq: direct oracle only",
@@ -43,6 +45,22 @@ def gen_cases(tier, seed):
         cases.append({"bseed": rng.randrange(1 << 48), "kind": "dict_" + fam, "fam": fam, "dn": dn, "maxin": maxin,
                       "arena": dn + 3 * (maxin + 16) + 64 + 4096 + 200,
                       "levels": sl.HC_LEVELS if maxin <= 5000 else sl.HC_LEVELS_CHEAP})
+    # dictionary cut out of a larger buffer; inputs repeat its LAST bytes; every cross-level attach pairing (HC)
+    k = {"quick": 1, "search": 3, "thorough": 6}[tier]
+    for rep in range(k):
+        for pair in sl.CROSS_LEVEL_PAIRS:
+            cases.append({"bseed": rng.randrange(1 << 48), "kind": "dict_tail_h", "fam": "h", "pair": list(pair), "arena": 3 * sl.K64 + 16384})
+        for j in range(4):
+            cases.append({"bseed": rng.randrange(1 << 48), "kind": "dict_tail_f", "fam": "f", "pair": None, "arena": 3 * sl.K64 + 16384})
+    # attach, compress nothing (or an empty input) on a cleared table, reset, dictionary-less session with dictionary-like content:
+    # first on the real code alone (the property oracle decides), then with the model
+    k = {"quick": 3, "search": 12, "thorough": 12}[tier]
+    ab = []
+    for i in range(k):
+        ab.append({"bseed": rng.randrange(1 << 48), "kind": "attach_abandoned_f", "fam": "f", "arena": 1 << 17, "model": False})
+    for i in range(k):
+        ab.append({"bseed": rng.randrange(1 << 48), "kind": "attach_abandoned_" + ("f" if i % 3 else "h"), "fam": "f" if i % 3 else "h", "arena": 1 << 17})
+    cases = cases[:2] + ab + cases[2:]
     if tier == "search":
         # failing-input search: the real code alone, judged by the property oracles (a model mismatch would stop a script early)
         for c in cases:
@@ -52,8 +70,12 @@ def gen_cases(tier, seed):
 worker_init = sl.worker_init
 
 def run_case(st, case):
+    if case["kind"].startswith("attach_abandoned"):
+        return sl.run_scenario(st, case, lambda S, rng: sl.scen_attach_abandoned(S, rng, case["fam"], {}))
     if case["kind"] == "corpus_F12":
         return sl.run_scenario(st, case, lambda S, rng: sl.corpus_attach_history(S, rng))
+    if case["kind"].startswith("dict_tail"):
+        return sl.run_scenario(st, case, lambda S, rng: sl.scen_dict_tail(S, rng, case["fam"], {"pair": tuple(case["pair"]) if case["pair"] else None}))
     def fn(S, rng):
         sl.scen_dict(S, rng, case["fam"], {"dn": case["dn"], "maxin": case["maxin"], "levels": case["levels"]})
     return sl.run_scenario(st, case, fn)
